@@ -93,15 +93,24 @@ func (c *simConn) Read(p []byte) (int, error) {
 	s := c.w.sch
 	t := s.cur()
 	if s.passThrough(t) {
-		return 0, io.EOF
+		return 0, c.endErr()
 	}
 	r := &envReq{op: "read", conn: c, buf: p}
 	t.env = r
 	s.park(t, "conn.Read", kindEnv)
 	if s.passThrough(t) && r.err == nil && r.n == 0 {
-		return 0, io.EOF
+		return 0, c.endErr()
 	}
 	return r.n, r.err
+}
+
+// endErr is what a read gets once the world is being taken down: a connection
+// the client closed itself reports just that, like a real one.
+func (c *simConn) endErr() error {
+	if c.closed {
+		return net.ErrClosed
+	}
+	return io.EOF
 }
 
 func (c *simConn) Write(p []byte) (int, error) {
